@@ -318,7 +318,7 @@ class Waiting(State):
         self.done_callback = done_callback
         self.msg = msg
         self.data = data
-        self._waiting_future: futures.Future = futures.Future()
+        self._waiting_future: futures.Future = futures.Future(loop=process.loop)
 
     def save_instance_state(self, out_state: SAVED_STATE_TYPE, save_context: persistence.LoadSaveContext) -> None:
         super().save_instance_state(out_state, save_context)
@@ -332,7 +332,8 @@ class Waiting(State):
             self.done_callback = getattr(self.process, callback_name)
         else:
             self.done_callback = None
-        self._waiting_future = futures.Future()
+        # (on the loop of the process, which need not be the current one where the state is loaded)
+        self._waiting_future = futures.Future(loop=self.process.loop)
 
     def exit(self) -> None:
         super().exit()
@@ -354,7 +355,7 @@ class Waiting(State):
             # Deal with the interruption (by raising) but make sure our internal
             # state is back to how it was before the interruption so that we can be
             # re-executed
-            self._waiting_future = futures.Future()
+            self._waiting_future = futures.Future(loop=self.process.loop)
             if self._resumed_with is not None:
                 # Resumed while the interruption was on its way
                 self._waiting_future.set_result(self._resumed_with[0])
